@@ -95,6 +95,14 @@ MUTANTS = {
         ('async-enosys-as-einval', 'src/api/server/async_io.rs', "ctx.async_reply_error(io::Error::from_raw_os_error(libc::ENOSYS))", "ctx.async_reply_error(io::Error::from_raw_os_error(libc::EINVAL))"),
         ('async-commit-ungated', 'src/transport/fusedev/mod.rs', "        pub async fn async_commit(&mut self, other: Option<&Writer<'a, S>>) -> io::Result<usize> {\n            if !self.buffered {\n                return Ok(0);\n            }\n", "        pub async fn async_commit(&mut self, other: Option<&Writer<'a, S>>) -> io::Result<usize> {\n"),
     ],
+    'C15': [
+        ('release-ignores-inode', 'src/passthrough/mod.rs', "if e.get().inode == inode {", "if e.get().inode == inode || e.get().inode != inode {"),
+        ('do-release-keeps-cookie', 'src/passthrough/mod.rs', "        self.handle_map.release(handle, inode)?;\n        self.handle_map.remove_cookie(handle);", "        self.handle_map.release(handle, inode)?;"),
+        ('get-without-inode-filter', 'src/passthrough/mod.rs', "            .filter(|hd| hd.inode == inode)\n", ""),
+        ('destroy-keeps-handles', 'src/passthrough/sync_io.rs', "        self.handle_map.clear();\n        self.inode_map.clear();", "        self.inode_map.clear();"),
+        ('open-counter-not-advanced', 'src/passthrough/sync_io.rs', "        let handle = self.next_handle.fetch_add(1, Ordering::Relaxed);\n        self.handle_map.insert(handle, data);\n\n        let mut opts", "        let handle = self.next_handle.fetch_add(0, Ordering::Relaxed);\n        self.handle_map.insert(handle, data);\n\n        let mut opts"),
+        ('create-handle-under-parent', 'src/passthrough/sync_io.rs', "HandleData::new(entry.inode, file, args.flags);", "HandleData::new(parent, file, args.flags);"),
+    ],
     'C06x': [],
     'C07': [
         ('index-shift-48', V, "const VFS_INDEX_SHIFT: u8 = 56;", "const VFS_INDEX_SHIFT: u8 = 48;"),
